@@ -88,3 +88,64 @@ class read_varbyteint_return:
 
     def ensures(pre, n, rest, result, call_args):
         return result == (n, wire.compact_size(n)) and call_args['s'].tell() == len(pre) + wire.compact_size_len(n)
+
+
+# ---------------------------------------------------------------------------------------------------
+# C11: bech32 regrouping (convertbits).  The property clause "decoding followed by re-encoding returns the identical
+# string" at the level of 5-bit symbols: whatever 5->8 accepts re-encodes (8->5) to exactly the symbols it was given,
+# and it refuses exactly the non-canonical paddings (BIP173: at most 4 padding bits, all zero).
+
+from pyvc.api import FixedList
+from bitcoinlib.encoding import convertbits as _convertbits
+
+
+def _cb_decode_case(nsym, native=False):
+    name = '5to8-%dsymbols' % nsym + ('-native' if native else '')
+    leftover = (5 * nsym) % 8
+
+    def bad_padding(data):
+        return leftover >= 5 or (data[nsym - 1] & ((1 << leftover) - 1)) != 0
+
+    def ensures(data, result):
+        return len(result) == (5 * nsym) // 8 and _convertbits(result, 8, 5, True) == data
+
+    d = {'params': {'data': FixedList(Int(0, 31), nsym)}, 'kwargs': {'frombits': 5, 'tobits': 8, 'pad': False},
+         'raises_iff': {EncodingError: bad_padding}, 'ensures': ensures, 'native_only': native,
+         'bounded': 'random symbol lists' if native else None,
+         '__doc__': 'convertbits(5->8, pad=False) on %d symbols: refuses exactly the non-canonical paddings; otherwise re-encoding gives the same symbols' % nsym}
+    return contract('bitcoinlib.encoding.convertbits', case=name, props=('C11',))(type('cb_' + name.replace('-', '_'), (), d))
+
+
+def _cb_encode_case(nbytes, native=False):
+    name = '8to5-%dbytes' % nbytes + ('-native' if native else '')
+
+    def ensures(data, result):
+        return len(result) == (8 * nbytes + 4) // 5 and all(0 <= x and x <= 31 for x in result) and _convertbits(result, 5, 8, False) == data
+
+    d = {'params': {'data': FixedList(Int(0, 255), nbytes)}, 'kwargs': {'frombits': 8, 'tobits': 5, 'pad': True}, 'ensures': ensures,
+         'native_only': native, 'bounded': 'random byte lists' if native else None,
+         '__doc__': 'convertbits(8->5, pad=True) on %d bytes: 5-bit symbols that decode back to the same bytes' % nbytes}
+    return contract('bitcoinlib.encoding.convertbits', case=name, props=('C11', 'C04'))(type('cb_' + name.replace('-', '_'), (), d))
+
+
+CONVERTBITS_CASES = ([_cb_decode_case(n)._contract.key for n in (4, 5, 7, 8, 32, 33, 52, 64)] + [_cb_encode_case(n)._contract.key for n in (2, 3, 5, 20, 32, 40)])
+
+
+# bech32 checksum function against the BIP173 reference (generator constants, shifting, folding), for value lists of
+# the lengths that occur for addresses (hrp 'bc'/'tb'/'ltc'... expanded + data + checksum).
+
+from spec import bech32 as _b32
+
+
+def _polymod_case(n):
+    name = '%dvalues' % n
+
+    def result_is(values):
+        return _b32.polymod(values)
+
+    d = {'params': {'values': FixedList(Int(0, 31), n)}, 'result_is': result_is,
+         '__doc__': '_bech32_polymod equals the BIP173 reference polymod on every list of %d 5-bit values' % n}
+    return contract('bitcoinlib.encoding._bech32_polymod', case=name, props=('C11', 'C04'))(type('polymod_%d' % n, (), d))
+
+
+POLYMOD_CASES = [_polymod_case(n)._contract.key for n in (1, 8, 44, 64, 90)]
